@@ -7,6 +7,7 @@
    (C05: "never returns a sequence that evaluates to zero or to some other string"). *)
 From PauLie Require Import Pauli Matrix Compiler MatrixT CompilerT LeftFullT LinearT.
 From PauLie Require OtocLoopT UniversalT.
+From PauLie Require Import Sym SymT ClT ClSym InvarT ParserT QuadInvT.
 From PauLieRefine Require Import PySem.
 From PauLieGen Require Import SearchGen.
 From Coq Require Import Lia ZifyBool.
@@ -710,6 +711,405 @@ Proof.
     exact (compile_left_no_fuel _ _ _ _ _ _ _ _ _ HW Hf H) end.
 Qed.
 
+(* ---------- exact outcomes: what is returned, which exceptions may leave, nothing else (no break in the code at hand) ---------- *)
+Section OutX.
+Context {S R : Type} (P : R -> Prop) (E : exn -> Prop).
+(* c = false: `continue` is not among the outcomes (a loop body after uncont) *)
+Definition OutX (c : bool) (I : S -> Prop) (o : outcome S R) : Prop :=
+  match o with Ret r => P r | Next s => I s | Cont s => if c then I s else False | Raised e => E e | _ => False end.
+Lemma OutX_seqo c (J I : S -> Prop) o k : OutX c J o -> (forall s, J s -> I s) -> (forall s, J s -> OutX c I (k s)) -> OutX c I (seqo o k).
+Proof. destruct o; cbn; intros; try contradiction; auto. destruct c; auto. Qed.
+Lemma OutX_seqo_while c (J I : S -> Prop) fuel cd b s0 k :
+  OutX c J (while_loop fuel cd b s0) -> (forall s, J s -> OutX c I (k s)) -> OutX c I (seqo (while_loop fuel cd b s0) k).
+Proof.
+  intros H Hk. pose proof (while_not_cont fuel cd b s0) as N. destruct (while_loop fuel cd b s0) eqn:Ew; cbn in *; try contradiction; auto.
+  exfalso. apply (proj1 (N s)). reflexivity.
+Qed.
+Lemma OutX_uncont I o : OutX true I o -> OutX false I (uncont o).
+Proof. destruct o; cbn; intros; try contradiction; auto. Qed.
+Lemma OutX_unloop c I o : OutX c I o -> OutX c I (unloop o).
+Proof. destruct o; cbn; intros; try contradiction; auto. Qed.
+Lemma OutX_lift I o : OutX false I o -> OutX true I o.
+Proof. destruct o; cbn; intros; try contradiction; auto. Qed.
+(* for: an invariant indexed by the part of the list already processed *)
+Lemma OutX_foldp {A} (Ip : list A -> S -> Prop) (body : S -> A -> outcome S R) : forall post pre o0, OutX false (Ip pre) o0 ->
+  (forall p x q s, pre ++ post = p ++ x :: q -> Ip p s -> OutX false (Ip (p ++ [x])) (body s x)) ->
+  OutX false (Ip (pre ++ post)) (fold_left (fun o x => seqo o (fun s => body s x)) post o0).
+Proof.
+  induction post as [|x post IH]; intros pre o0 H0 Hb; [rewrite app_nil_r; exact H0|]. cbn [fold_left].
+  replace (pre ++ x :: post) with ((pre ++ [x]) ++ post) by (rewrite <- app_assoc; reflexivity). apply IH.
+  - destruct o0; cbn in *; try contradiction; try exact H0. apply (Hb pre x post); [reflexivity|exact H0].
+  - intros p y q s Hs. apply (Hb p y q s). rewrite <- app_assoc in Hs. exact Hs.
+Qed.
+(* while on fuel: invariant, measure; at the exit the condition is false *)
+Lemma OutX_while (I : S -> Prop) (m : S -> nat) cond body : forall fuel s0, I s0 -> (m s0 < fuel)%nat ->
+  (forall s, I s -> cond s = true -> OutX true (fun s' => I s' /\ (m s' < m s)%nat) (body s)) ->
+  OutX false (fun s => I s /\ cond s = false) (while_loop fuel cond body s0).
+Proof.
+  induction fuel as [|f IH]; intros s0 H0 Hm Hb; [lia|]. cbn [while_loop]. destruct (cond s0) eqn:C; [|split; assumption].
+  pose proof (Hb s0 H0 C) as Hs. destruct (body s0); cbn [uncont] in *; cbn [OutX] in Hs; try exact Hs; try contradiction.
+  - destruct Hs. apply IH; [assumption|lia|exact Hb].
+  - destruct Hs. apply IH; [assumption|lia|exact Hb].
+Qed.
+Lemma OutX_finish c o : OutX c (fun _ => False) o -> match finish o with FRet r => P r | FRaised e => E e | _ => False end.
+Proof. destruct o; cbn; intros H; try contradiction; try exact H. destruct c; contradiction. Qed.
+End OutX.
+
+Ltac sxx_red := cbn [seqo bindr uncont unloop]; cbv beta iota zeta.
+Ltac sxx_step :=
+  lazymatch goal with
+  | |- OutX _ _ false _ (uncont _) => apply OutX_uncont
+  | |- OutX _ _ _ _ (unloop _) => apply OutX_unloop
+  | |- OutX _ _ _ _ (seqo (seqo _ _) _) => rewrite seqo_assoc
+  | |- OutX _ _ _ _ (seqo (unloop _) _) => fail
+  | |- OutX _ _ _ _ (seqo (while_loop _ _ _ _) _) => fail
+  | |- OutX _ _ _ _ (seqo (if ?c then _ else _) _) => destruct c eqn:?; sxx_red
+  | |- OutX _ _ _ _ (seqo (bindr ?c _) _) => destruct c eqn:?; sxx_red
+  | |- OutX _ _ _ _ (seqo (match ?x with _ => _ end) _) => destruct x eqn:?; sxx_red
+  | |- OutX _ _ _ _ (seqo _ _) => sxx_red
+  | |- OutX _ _ _ _ (if ?c then _ else _) => destruct c eqn:?; sxx_red
+  | |- OutX _ _ _ _ (bindr ?c _) => destruct c eqn:?; sxx_red
+  | |- OutX _ _ _ _ (Ret _) => cbn [OutX]
+  | |- OutX _ _ _ _ (Next _) => cbn [OutX]; cbv beta iota
+  | |- OutX _ _ _ _ (Cont _) => cbn [OutX]; cbv beta iota
+  | |- OutX _ _ _ _ (Raised _) => cbn [OutX]
+  | |- OutX _ _ _ _ (fold_left _ _ _) => fail
+  | |- OutX _ _ _ _ (while_loop _ _ _ _) => fail
+  | |- OutX _ _ _ _ (match ?x with _ => _ end) => destruct x eqn:?; sxx_red
+  end.
+Ltac sxx := cbv beta iota zeta; repeat sxx_step.
+
+Lemma ok_len a c : length a = length c ->
+  py_S_commutes_ok a c = true /\ py_S_commutes_val a c = negb (anti_l a c) /\ py_S_multiply_ok a c = true /\ py_S_multiply_val a c = smul a c.
+Proof.
+  intros L. unfold py_S_commutes_ok, py_S_commutes_val, py_S_multiply_ok, py_S_multiply_val.
+  rewrite (commutes_code_ok a c L), (multiply_code_ok a c L). cbn. auto.
+Qed.
+Lemma kdict_get_set_same {A} (d : list (pstr * A)) k v : kdict_get pstr_eqb (kdict_set pstr_eqb d k v) k = Some v.
+Proof. induction d as [|[k0 v0] t IH]; cbn; [rewrite pstr_eqb_refl; reflexivity|]. destruct (pstr_eqb k0 k) eqn:E; cbn; rewrite E; [reflexivity|exact IH]. Qed.
+Lemma kdict_get_set_other {A} (d : list (pstr * A)) k v k' : k' <> k -> kdict_get pstr_eqb (kdict_set pstr_eqb d k v) k' = kdict_get pstr_eqb d k'.
+Proof.
+  intros N. induction d as [|[k0 v0] t IH]; cbn.
+  - destruct (pstr_eqb k k') eqn:E; [apply pstr_eqb_true in E; congruence|reflexivity].
+  - destruct (pstr_eqb k0 k) eqn:E; cbn.
+    + apply pstr_eqb_true in E. subst k0. destruct (pstr_eqb k k') eqn:E2; [apply pstr_eqb_true in E2; congruence|reflexivity].
+    + destruct (pstr_eqb k0 k'); [reflexivity|exact IH].
+Qed.
+Lemma pstr_neq x y : pstr_eqb x y = false -> x <> y.
+Proof. intros E ->. rewrite pstr_eqb_refl in E. discriminate. Qed.
+
+Section LeftMapSpec.
+Variables (n : nat) (Vf Vt : pstr) (A : list pstr).
+Hypothesis LVf : length Vf = n.
+Hypothesis LA : forall a, In a A -> length a = n.
+Definition Reach (y : pstr) : Prop := exists ops, (forall a, In a ops -> In a A) /\ ncr_from Vf ops = Some y.
+Definition st := (list pstr * list (pstr * (pstr * pstr * pstr)) * list pstr * pstr * list pstr)%type.
+Definition PEntry (seen : list pstr) (key : pstr) (v : pstr * pstr * pstr) : Prop :=
+  In key seen /\ In (fst (fst v)) seen /\ (pos (fst (fst v)) seen < pos key seen)%nat /\ In (snd v) A /\ length (fst (fst v)) = n /\
+  anti_l (snd v) (fst (fst v)) = true /\ key = smul (snd v) (fst (fst v)).
+Definition Closed (seen q : list pstr) (except : pstr -> Prop) : Prop :=
+  forall x, In x seen -> ~ In x q -> ~ except x -> x <> Vt /\ forall a, In a A -> anti_l a x = true -> In (smul a x) seen.
+Definition Inv0 (except : pstr -> Prop) (s : st) : Prop := let '(q, parent, seen, ck, sq) := s in
+  OtocLoopT.all_len n q /\ OtocLoopT.all_len n seen /\ NoDup seen /\ NoDup q /\ (forall x, In x q -> In x seen) /\ In Vf seen /\
+  Closed seen q except /\ (forall key v, In (key, v) parent -> PEntry seen key v) /\
+  (forall x, In x seen -> x <> Vf -> opt_is_some (kdict_get pstr_eqb parent x) = true).
+Definition Inv := Inv0 (fun _ => False).
+Definition PSeq (sq : list pstr) : Prop := (forall a, In a sq -> In a A) /\ ncr_from Vf sq = Some Vt.
+Definition EExn (e : exn) : Prop := e = EUser "RuntimeError" /\ ~ Reach Vt.
+
+(* a seen set that is closed under the steps (empty queue) contains everything reachable from any of its members *)
+Lemma closed_reach seen : OtocLoopT.all_len n seen -> Closed seen [] (fun _ => False) ->
+  forall ops x y, (forall a, In a ops -> In a A) -> In x seen -> ncr_from x ops = Some y -> In y seen.
+Proof.
+  intros Hl Hc. induction ops as [|a t IH]; intros x y Ho Hx H.
+  - cbn in H. injection H as <-. exact Hx.
+  - cbn [ncr_from] in H. destruct (Nat.eqb (length a) (length x)); [|discriminate]. destruct (anti_l a x) eqn:Ea; [|discriminate].
+    apply (IH (smul a x) y); [intros b Hb; apply Ho; right; exact Hb| |exact H].
+    apply (Hc x Hx); [intros []|intros []|apply Ho; left; reflexivity|exact Ea].
+Qed.
+
+Theorem left_map_spec fuel : (2 * Nat.pow 4 n < fuel)%nat ->
+  match py_S_left_map_over_a fuel Vf Vt A with FRet sq => PSeq sq | FRaised e => EExn e | _ => False end.
+Proof.
+  intros Hf. unfold py_S_left_map_over_a. assert (P4 : (1 <= Nat.pow 4 n)%nat) by (pose proof (Nat.pow_nonzero 4 n); lia).
+  apply (OutX_finish PSeq EExn false).
+  sxx.
+  - (* start = goal *) split; [intros a []|]. cbn. f_equal. apply pstr_eqb_true. rewrite !key_val in *. assumption.
+  - rewrite !key_val in *.
+    eapply OutX_seqo_while.
+    + eapply (OutX_while _ _ Inv (mout n)).
+      * (* initially *)
+        cbn. split; [intros g [<-|[]]; exact LVf|]. split; [intros g [<-|[]]; exact LVf|]. split; [constructor; [intros []|constructor]|].
+        split; [constructor; [intros []|constructor]|]. split; [intros x Hx; exact Hx|]. split; [left; reflexivity|].
+        split; [intros x [<-|[]] Hn; exfalso; apply Hn; left; reflexivity|]. split; [intros ? ? []|]. intros x [<-|[]] Hn; congruence.
+      * cbn. lia.
+      * intros s Hs Hc. destruct s as [[[[q parent] seen] ck0] sq]. cbv beta iota zeta in Hc |- *. destruct q as [|cur q']; [discriminate Hc|].
+        destruct Hs as [Hq [Hsl [Hnd [Hndq [Hqs [Hst [Hcl [Hpe Hpt]]]]]]]].
+        assert (Hcur : In cur seen) by (apply Hqs; left; reflexivity).
+        assert (Lcur : length cur = n) by (apply Hq; left; reflexivity).
+        assert (Bnd : (length seen <= Nat.pow 4 n)%nat) by (apply OtocLoopT.visited_bound; assumption).
+        assert (Hcq : ~ In cur q') by (inversion Hndq; assumption).
+        rewrite !key_val. destruct (pstr_eqb cur Vt) eqn:EG; sxx_red.
+        -- (* the goal was popped: walk back along the parent pointers *)
+           apply pstr_eqb_true in EG. rewrite seqo_assoc.
+           set (Iin := fun s : st => let '(q0, p0, s0, ck, sq0) := s in p0 = parent /\ s0 = seen /\ In ck seen /\ ncr_from ck (rev sq0) = Some cur /\ (forall a, In a sq0 -> In a A)).
+           eapply OutX_seqo_while.
+           ++ apply OutX_lift. eapply (OutX_while _ _ Iin (fun '(q0, p0, s0, ck, sq0) => pos ck seen)).
+              ** cbn. repeat split; auto. intros a [].
+              ** pose proof (pos_lt cur seen Hcur). lia.
+              ** intros s Hs2 Hc2. destruct s as [[[[q0 p0] s0] ck] sq0]. cbv beta iota zeta in Hs2, Hc2 |- *. destruct Hs2 as [-> [-> [Hck [Hch Hmem]]]].
+                 assert (Hne : ck <> Vf) by (apply pstr_neq; destruct (pstr_eqb ck Vf); [discriminate|reflexivity]).
+                 pose proof (Hpt ck Hck Hne) as Hsome.
+                 sxx; try (unfold pstr in *; congruence).
+                 match goal with E : unopt ?dd ?o = _ |- _ =>
+                   pose proof (opt_some_unopt dd o Hsome) as EK; rewrite E in EK; apply kdict_get_in' in EK end.
+                 destruct (Hpe _ _ EK) as [H1 [H2 [H3 [H4 [H5 [H6 H7]]]]]]. cbn [fst snd] in *.
+                 split; [|exact H3]. split; [reflexivity|]. split; [reflexivity|]. split; [exact H2|]. split.
+                 --- rewrite rev_app_distr. cbn [rev app ncr_from]. rewrite (LA _ H4), H5, Nat.eqb_refl, H6. rewrite <- H7. exact Hch.
+                 --- intros a Ha. apply in_app_or in Ha. destruct Ha as [Ha|[<-|[]]]; auto.
+           ++ intros s [Hs2 Hc2]. destruct s as [[[[q0 p0] s0] ck] sq0]. cbv beta iota zeta in Hs2, Hc2 |- *. destruct Hs2 as [_ [_ [_ [Hch Hmem]]]].
+              sxx_red. cbn [OutX]. split; [intros a Ha; apply in_rev in Ha; auto|].
+              assert (Eck : ck = Vf) by (apply pstr_eqb_true; destruct (pstr_eqb ck Vf); [reflexivity|discriminate]). unfold pstr in *. congruence.
+        -- (* its neighbours: after the loop the popped string is closed too *)
+           assert (Ncur : cur <> Vt) by (apply pstr_neq; exact EG).
+           set (s0 := (q', parent, seen, cur, sq) : st).
+           set (Jp := fun (pre : list pstr) (s : st) =>
+                  Inv0 (fun x => x = cur) s /\
+                  (let '(q0, p0, sn, ck, sq0) := s in In cur sn /\ ck = cur /\ ~ In cur q0 /\ forall a, In a pre -> anti_l a cur = true -> In (smul a cur) sn) /\
+                  (mout n s <= mout n s0)%nat).
+           assert (JP : forall s, Jp A s -> Inv s /\ (mout n s < mout n (cur :: q', parent, seen, ck0, sq))%nat).
+           { intros s [H1 [H2 H3]]. destruct s as [[[[q1 p1] sn] ck] sq1]. split; [|unfold s0 in H3; cbn [mout length] in *; lia].
+             destruct H1 as [G1 [G2 [G3 [G4 [G5 [G6 [G7 [G8 G9]]]]]]]]. destruct H2 as [K1 [K2 [K3 K4]]].
+             repeat (split; [assumption|]). split; [|split; assumption].
+             intros x Hx Hnq _. destruct (pstr_eqb x cur) eqn:Ex.
+             - apply pstr_eqb_true in Ex. subst x. split; [exact Ncur|exact K4].
+             - apply G7; [exact Hx|exact Hnq|apply pstr_neq; exact Ex]. }
+           apply (OutX_seqo _ _ true (Jp A)); [|exact JP|intros s Hs; destruct s as [[[[q1 p1] sn] ck] sq1]; cbn [OutX]; exact (JP _ Hs)].
+           apply OutX_lift. apply OutX_unloop.
+           change (Jp A) with (Jp ([] ++ A)). apply (OutX_foldp _ _ Jp).
+           ++ (* before the loop *)
+              cbn [OutX]. unfold Jp, s0. split; [|split; [|apply le_n]].
+              ** split; [intros g Hg; apply Hq; right; exact Hg|]. split; [exact Hsl|]. split; [exact Hnd|]. split; [inversion Hndq; assumption|].
+                 split; [intros x Hx; apply Hqs; right; exact Hx|]. split; [exact Hst|]. split; [|split; assumption].
+                 intros x Hx Hnq Hxc. apply Hcl; [exact Hx| |intros []]. intros [<-|F]; [apply Hxc; reflexivity|exact (Hnq F)].
+              ** split; [exact Hcur|]. split; [reflexivity|]. split; [exact Hcq|]. intros a [].
+           ++ intros p a qq s EA Hs. assert (HaA : In a A) by (cbn [app] in EA; rewrite EA; apply in_or_app; right; left; reflexivity).
+              destruct s as [[[[q1 p1] sn] ck] sq1]. cbv beta iota zeta.
+              destruct Hs as [[G1 [G2 [G3 [G4 [G5 [G6 [G7 [G8 G9]]]]]]]] [[K1 [-> [K3 K4]]] Hm]].
+              assert (Lac : length a = length cur) by (rewrite (LA a HaA); symmetry; exact Lcur).
+              destruct (ok_len a cur Lac) as [O1 [O2 [O3 O4]]].
+              apply OutX_uncont. rewrite O1, O2, O3, O4, !key_val. cbv beta iota. sxx.
+              ** (* commutes: nothing to do *)
+                 unfold Jp. split; [repeat (split; [assumption|]); assumption|]. split; [|exact Hm].
+                 split; [exact K1|]. split; [reflexivity|]. split; [exact K3|].
+                 intros b Hb Hab. apply in_app_or in Hb. destruct Hb as [Hb|[Eb|[]]]; [apply K4; assumption|]. subst b.
+                 match goal with H : negb (anti_l a cur) = true |- _ => rewrite Hab in H; discriminate H end.
+              ** (* already seen *)
+                 unfold Jp. split; [repeat (split; [assumption|]); assumption|]. split; [|exact Hm].
+                 split; [exact K1|]. split; [reflexivity|]. split; [exact K3|].
+                 intros b Hb Hab. apply in_app_or in Hb. destruct Hb as [Hb|[Eb|[]]]; [apply K4; assumption|]. subst b.
+                 match goal with H : mem_b pstr_eqb _ sn = true |- _ => apply mem_b_in in H; exact H end.
+              ** (* a new string: queued, recorded as seen, its parent stored *)
+                 match goal with H : mem_b pstr_eqb (smul a cur) sn = false |- _ => apply mem_b_notin in H; rename H into Hnew end.
+                 match goal with H : negb (anti_l a cur) = false |- _ => apply negb_false_iff in H; rename H into Hanti end.
+                 set (nk := smul a cur) in *.
+                 assert (Lnk : length nk = n) by (unfold nk; rewrite smul_length; congruence).
+                 assert (ES : set_add_b pstr_eqb nk sn = sn ++ [nk]).
+                 { unfold set_add_b. destruct (mem_b pstr_eqb nk sn) eqn:Em; [apply mem_b_in in Em; contradiction|reflexivity]. }
+                 rewrite ES.
+                 assert (Hsl2 : OtocLoopT.all_len n (sn ++ [nk])) by (intros g Hg; apply in_app_or in Hg; destruct Hg as [Hg|[<-|[]]]; [apply G2; exact Hg|exact Lnk]).
+                 assert (Hnd2 : NoDup (sn ++ [nk])) by (apply NoDup_snoc; assumption).
+                 pose proof (OtocLoopT.visited_bound n _ Hsl2 Hnd2) as B2. rewrite app_length in B2. cbn [length] in B2.
+                 assert (Hnq : ~ In nk q1) by (intros F; apply Hnew; apply G5; exact F).
+                 assert (Hnc : nk <> cur) by (intros F; apply Hnew; rewrite F; exact K1).
+                 unfold Jp. split; [|split].
+                 --- split; [intros g Hg; apply in_app_or in Hg; destruct Hg as [Hg|[<-|[]]]; [apply G1; exact Hg|exact Lnk]|].
+                     split; [exact Hsl2|]. split; [exact Hnd2|]. split; [apply NoDup_snoc; assumption|].
+                     split; [intros x Hx; apply in_app_or in Hx; apply in_or_app; destruct Hx as [Hx|[<-|[]]]; [left; apply G5; exact Hx|right; left; reflexivity]|].
+                     split; [apply in_or_app; left; exact G6|]. split; [|split].
+                     +++ (* closedness is monotone *)
+                         intros x Hx Hxq Hxc. apply in_app_or in Hx. destruct Hx as [Hx|[<-|[]]].
+                         *** destruct (G7 x Hx) as [F1 F2]; [intros F; apply Hxq; apply in_or_app; left; exact F|exact Hxc|]. split; [exact F1|].
+                             intros b Hb Hab. apply in_or_app. left. exact (F2 b Hb Hab).
+                         *** exfalso. apply Hxq. apply in_or_app. right. left. reflexivity.
+                     +++ intros key v Hin. apply kdict_set_in' in Hin. destruct Hin as [[-> ->]|Hin].
+                         *** unfold PEntry. cbn [fst snd]. split; [apply in_or_app; right; left; reflexivity|]. split; [apply in_or_app; left; exact K1|].
+                             split; [rewrite pos_app_in by exact K1; rewrite pos_app_new by exact Hnew; apply pos_lt; exact K1|].
+                             split; [exact HaA|]. split; [exact Lcur|]. split; [exact Hanti|reflexivity].
+                         *** destruct (G8 _ _ Hin) as [H1 [H2 [H3 H4]]]. unfold PEntry. split; [apply in_or_app; left; exact H1|]. split; [apply in_or_app; left; exact H2|].
+                             split; [rewrite !pos_app_in by assumption; exact H3|exact H4].
+                     +++ intros x Hx Hxf. apply in_app_or in Hx. destruct Hx as [Hx|[<-|[]]].
+                         *** rewrite kdict_get_set_other; [apply G9; assumption|]. intros ->. contradiction.
+                         *** rewrite kdict_get_set_same. reflexivity.
+                 --- split; [apply in_or_app; left; exact K1|]. split; [reflexivity|]. split; [intros F; apply in_app_or in F; destruct F as [F|[F|[]]]; [exact (K3 F)|exact (Hnc F)]|].
+                     intros b Hb Hab. apply in_app_or in Hb. apply in_or_app. destruct Hb as [Hb|[Eb|[]]]; [left; apply K4; assumption|]. subst b. right. left. reflexivity.
+                 --- unfold s0 in *. cbn [mout] in *. rewrite !app_length. cbn [length]. lia.
+    + (* the queue is empty and the goal was never popped: it is not reachable *)
+      intros s [Hs Hq]. destruct s as [[[[q parent] seen] ck] sq]. cbv beta iota zeta in Hq |- *. destruct q; [|discriminate]. cbn [OutX].
+      split; [reflexivity|]. intros [ops [Ho Hr]].
+      destruct Hs as [_ [Hsl [_ [_ [_ [Hst [Hcl _]]]]]]].
+      pose proof (closed_reach seen Hsl Hcl ops Vf Vt Ho Hst Hr) as Hin.
+      destruct (Hcl Vt Hin) as [F _]; [intros []|intros []|]. apply F. reflexivity.
+Qed.
+End LeftMapSpec.
+
+(* ---------- compile_target on left-only targets, even k: it returns ---------- *)
+
+(* _nested_commutator_result on strings of one length never raises: it is ncr_from *)
+Lemma ad_apply_total a c : length a = length c -> py_S_ad_apply a (Some c) = FRet (if anti_l a c then Some (smul a c) else None).
+Proof.
+  intros L. unfold py_S_ad_apply. cbn [opt_is_some negb seqo unopt]. destruct (ok_len a c L) as [O1 [O2 [O3 O4]]]. rewrite O1, O2, O3, O4.
+  rewrite orb_true_r. cbn [finish]. destruct (anti_l a c); reflexivity.
+Qed.
+Lemma ncr_total n : forall ops b, length b = n -> (forall a, In a ops -> length a = n) -> py_S_nested_commutator_result (b :: ops) = FRet (ncr_from b ops).
+Proof.
+  intros ops b Lb Lo. unfold py_S_nested_commutator_result. cbv zeta. cbn [is_nil negb seqo]. change (idx_ok (b :: ops) 0) with true. cbv iota.
+  change (list_get [] (b :: ops) 0) with b. change (slice_from (b :: ops) 1) with ops.
+  match goal with |- context [fold_left ?f ops _] => set (F := f) end.
+  assert (FR : forall l (r0 : option pstr), fold_left F l (Ret r0) = Ret r0) by (induction l as [|x l IHl]; intros r0; [reflexivity|cbn [fold_left]; apply IHl]).
+  assert (G : forall l c, length c = n -> (forall a, In a l -> length a = n) ->
+     fold_left F l (Next (Some c)) = match ncr_from c l with Some r => Next (Some r) | None => Ret None end).
+  { induction l as [|a l IH]; intros c Lc Ll; [reflexivity|]. cbn [fold_left ncr_from]. unfold F at 2. cbn [seqo]. cbv zeta.
+    assert (La : length a = length c) by (rewrite Lc; apply Ll; left; reflexivity). rewrite (ad_apply_total a c La). cbn [bindr]. rewrite La, Nat.eqb_refl.
+    destruct (anti_l a c); cbn [opt_is_some negb seqo uncont].
+    - apply IH; [rewrite smul_length by exact La; rewrite La; exact Lc|intros x Hx; apply Ll; right; exact Hx].
+    - apply FR. }
+  rewrite (G ops b Lb Lo). destruct (ncr_from b ops); reflexivity.
+Qed.
+
+(* appending identities to every string of a chain *)
+Lemma ncr_from_ext n m : forall ops b r, length b = n -> (forall a, In a ops -> length a = n) -> ncr_from b ops = Some r ->
+  ncr_from (b ++ identity m) (map (fun a => a ++ identity m) ops) = Some (r ++ identity m).
+Proof.
+  induction ops as [|a t IH]; intros b r Lb Lo H.
+  - cbn in H. injection H as <-. reflexivity.
+  - cbn [ncr_from map] in *. assert (La : length a = length b) by (rewrite Lb; apply Lo; left; reflexivity).
+    rewrite La, Nat.eqb_refl in H. rewrite !app_length, La, Nat.eqb_refl.
+    rewrite anti_l_app by exact La. rewrite anti_identity, xorb_false_r. destruct (anti_l a b); [|discriminate].
+    rewrite smul_app by exact La. rewrite smul_identity. apply IH; [rewrite smul_length by exact La; rewrite La; exact Lb|intros x Hx; apply Lo; right; exact Hx|exact H].
+Qed.
+
+Lemma nested_none_prefix : forall l s, s <> [] -> nested_eval s = None -> nested_eval (l ++ s) = None.
+Proof.
+  induction l as [|y l IH]; intros s Hs N; [exact N|]. cbn [app]. rewrite nested_eval_step by (intros F; apply app_eq_nil in F; destruct F; contradiction).
+  rewrite (IH s Hs N). reflexivity.
+Qed.
+(* from the documented-orientation evaluation back to the chain *)
+Lemma nested_to_ncr n : forall ops b r, length b = n -> (forall a, In a ops -> length a = n) -> nested_eval (rev ops ++ [b]) = Some r -> ncr_from b ops = Some r.
+Proof.
+  assert (G : forall ops s c r, s <> [] -> nested_eval s = Some c -> length c = n -> (forall a, In a ops -> length a = n) ->
+               nested_eval (rev ops ++ s) = Some r -> ncr_from c ops = Some r).
+  { induction ops as [|a t IH]; intros s c r Hs Hc Lc Lo H.
+    - cbn in H. rewrite Hc in H. exact H.
+    - cbn [rev] in H. rewrite <- app_assoc in H. cbn [app] in H. cbn [ncr_from]. assert (La : length a = length c) by (rewrite Lc; apply Lo; left; reflexivity).
+      rewrite La, Nat.eqb_refl.
+      destruct (anti_l a c) eqn:Ea.
+      + apply (IH (a :: s) (smul a c) r); [discriminate| | |intros x Hx; apply Lo; right; exact Hx|exact H].
+        * rewrite nested_eval_step by exact Hs. rewrite Hc, Ea. reflexivity.
+        * rewrite smul_length by exact La. rewrite La. exact Lc.
+      + exfalso. assert (N : nested_eval (a :: s) = None) by (rewrite nested_eval_step by exact Hs; rewrite Hc, Ea; reflexivity).
+        pose proof (nested_none_prefix (rev t) (a :: s) ltac:(discriminate) N) as F. unfold pstr in *. congruence. }
+  intros ops b r Lb Lo H. apply (G ops [b] b r); [discriminate|reflexivity|exact Lb|exact Lo|exact H].
+Qed.
+
+(* for even k every non-identity left string is reached from some left generator by steps over the left generators *)
+Lemma left_reach k V : Nat.even k = true -> length V = k -> V <> identity k ->
+  exists b ops, In b (left_a_minimal k) /\ (forall a, In a ops -> In a (left_a_minimal k)) /\ ncr_from b ops = Some V.
+Proof.
+  intros Hev LV NV. pose proof (left_full k V Hev LV NV) as HC.
+  assert (HL : forall g, In g (left_a_minimal k) -> length g = k) by (intros g; apply UniversalT.left_lengths).
+  apply (ClL_enc k (Lk k) HL V LV) in HC.
+  assert (HC' : ClS (fun a => In a (map enc (left_a_minimal k))) (enc V)).
+  { revert HC. apply s_ext. intros a. unfold image, Lk. rewrite in_map_iff. split.
+    - intros [g [E Hg]]. exists g. split; [exact Hg|symmetry; exact E].
+    - intros [g [Hg E]]. exists g. split; [symmetry; exact E|exact Hg]. }
+  destruct (nested_exists k (left_a_minimal k) V HL LV HC') as [s [Hne [Hmem Hev']]].
+  destruct (exists_last Hne) as [l' [b Es]]. subst s. exists b, (rev l'). split; [apply Hmem; apply in_or_app; right; left; reflexivity|]. split.
+  - intros a Ha. apply in_rev in Ha. apply Hmem. apply in_or_app. left. exact Ha.
+  - apply (nested_to_ncr k); [apply HL; apply Hmem; apply in_or_app; right; left; reflexivity| |rewrite rev_involutive; exact Hev'].
+    intros a Ha. apply in_rev in Ha. apply HL. apply Hmem. apply in_or_app. left. exact Ha.
+Qed.
+
+Lemma compile_left_returns (fuel : nat) (k nr fd fn Nt : Z) (V W : pstr) (orc : list oans) :
+  Nat.even (Z.to_nat k) = true -> (0 <= nr)%Z -> Z.of_nat (length V) = k -> Z.of_nat (length W) = nr -> is_identity W = true -> V <> identity (Z.to_nat k) ->
+  (2 * Nat.pow 4 (Z.to_nat k) < fuel)%nat -> exists seq, py_S_compile fuel k nr fd fn Nt V W orc = FRet seq.
+Proof.
+  intros Hev Hnr LV LW HW NV Hf.
+  destruct (left_reach (Z.to_nat k) V Hev ltac:(lia) NV) as [b [ops [Hb [Hops Hch]]]].
+  assert (HL : forall g, In g (left_a_minimal (Z.to_nat k)) -> length g = Z.to_nat k) by (intros g; apply UniversalT.left_lengths).
+  assert (T : match py_S_compile fuel k nr fd fn Nt V W orc with FRet r => True | FRaised e => False | _ => False end).
+  { unfold py_S_compile. apply (OutX_finish (fun _ => True) (fun _ => False) false).
+    assert (C1 : ((Z.of_nat (length V) =? k) && (Z.of_nat (length W) =? nr))%bool = true) by lia. cbv beta iota zeta. rewrite C1, HW. sxx_red.
+    rewrite seqo_assoc. set (A := left_a_minimal (Z.to_nat k)) in *.
+    assert (EWid : W = identity (Z.to_nat nr)) by (apply is_identity_iff in HW; rewrite HW; f_equal; lia).
+    apply (OutX_seqo _ _ false (fun _ => ~ In b A)); [|intros s F; exact (F Hb)|intros s F; exfalso; exact (F Hb)].
+    apply OutX_unloop.
+    change (fun _ : list oans => ~ In b A) with ((fun (pre : list pstr) (_ : list oans) => ~ In b pre) ([] ++ A)). apply OutX_foldp; [cbn; intros []|].
+    intros p x qq s EA Hp. assert (HxA : In x A) by (cbn [app] in EA; rewrite EA; apply in_or_app; right; left; reflexivity).
+    assert (Lx : length x = Z.to_nat k) by (apply HL; exact HxA).
+    cbv beta iota zeta. apply OutX_uncont.
+    pose proof (left_map_spec (Z.to_nat k) x V A Lx HL fuel Hf) as SP.
+    destruct (py_S_left_map_over_a fuel x V A) as [r| |e| |] eqn:EL; try contradiction.
+    - (* the left map returned: the candidate passes the check *)
+      destruct SP as [Hmem Hr].
+      assert (Ok1 : py_S_extend_left_ok nr x = true) by (unfold py_S_extend_left_ok; lia). rewrite Ok1.
+      assert (Ok2 : forallb (fun v_c_a : pstr => py_S_extend_left_ok nr v_c_a) r = true) by (apply forallb_forall; intros; unfold py_S_extend_left_ok; lia). rewrite Ok2.
+      cbv beta iota zeta. cbn [app].
+      assert (EN : py_S_nested_commutator_result (py_S_extend_left_val nr x :: map (fun v_c_a : pstr => py_S_extend_left_val nr v_c_a) r) = FRet (Some (V ++ identity (Z.to_nat nr)))).
+      { unfold py_S_extend_left_val, py_S_tensor_val. rewrite (ncr_total (Z.to_nat k + Z.to_nat nr)).
+        - f_equal. apply (ncr_from_ext (Z.to_nat k)); [exact Lx|intros a Ha; apply HL; apply Hmem; exact Ha|exact Hr].
+        - rewrite app_length, identity_length. lia.
+        - intros a Ha. apply in_map_iff in Ha. destruct Ha as [c [<- Hc]]. rewrite app_length, identity_length, (HL c (Hmem c Hc)). reflexivity. }
+      rewrite EN. cbn [bindr opt_is_some unopt negb orb andb].
+      assert (LVn : length V = Z.to_nat k) by lia.
+      assert (EL1 : py_S_left_part_val (V ++ identity (Z.to_nat nr)) k = V).
+      { unfold py_S_left_part_val. change (Z.to_nat 0) with O. cbn [skipn]. rewrite firstn_app, <- LVn, Nat.sub_diag, firstn_all. cbn [firstn]. apply app_nil_r. }
+      assert (ER1 : py_S_right_part_val (V ++ identity (Z.to_nat nr)) k = W).
+      { unfold py_S_right_part_val. rewrite skipn_app, <- LVn, skipn_all, Nat.sub_diag. cbn [skipn app]. rewrite EWid. apply firstn_all2. rewrite app_length, identity_length. lia. }
+      assert (G1 : py_S_left_part_ok (V ++ identity (Z.to_nat nr)) k = true) by (unfold py_S_left_part_ok; lia).
+      assert (G2 : py_S_right_part_ok (V ++ identity (Z.to_nat nr)) k = true) by (unfold py_S_right_part_ok; rewrite app_length, identity_length; lia).
+      rewrite G1, EL1, pstr_eqb_refl, G2, ER1, pstr_eqb_refl. cbn [negb orb andb seqo]. rewrite gen_s_orient. cbn [bindr OutX]. exact I.
+    - (* the left map raised: only RuntimeError, and only when V is not reachable from x — so x is not b *)
+      destruct SP as [-> NR]. cbn [exn_is]. change (String.eqb "RuntimeError" "RuntimeError") with true. cbn [OutX]. cbv iota.
+      intros F. apply in_app_or in F. destruct F as [F|[F|[]]]; [exact (Hp F)|]. subst x. apply NR. exists ops. split; [exact Hops|exact Hch]. }
+  destruct (py_S_compile fuel k nr fd fn Nt V W orc); try contradiction. eexists. reflexivity.
+Qed.
+
+(* C05 + C06 on the source, for targets with identity right block and an even left block size, every N: compile_target RETURNS
+   (no RuntimeError, no other exception, within the fuel 2 * 4^k + 1), and what it returns is accepted by the validator *)
+Theorem gen_s_left_only_total (fuel : nat) (target : pstr) (k : Z) (sub rest : list oans) :
+  Nat.even (Z.to_nat k) = true -> (2 <= k < Z.of_nat (length target))%Z ->
+  is_identity (skipn (Z.to_nat k) target) = true -> firstn (Z.to_nat k) target <> identity (Z.to_nat k) ->
+  (2 * Nat.pow 4 (Z.to_nat k) < fuel)%nat ->
+  exists seq, py_S_compile_target fuel target k (OSub sub :: rest) = FRet seq /\ compile_ok (length target) (Z.to_nat k) target seq = true.
+Proof.
+  intros Hev Hk HW NV Hf.
+  set (V := firstn (Z.to_nat k) target) in *. set (W := skipn (Z.to_nat k) target) in *.
+  assert (LV : Z.of_nat (length V) = k) by (unfold V; rewrite firstn_length; lia).
+  assert (LW : Z.of_nat (length W) = Z.of_nat (length target) - k) by (unfold W; rewrite skipn_length; lia).
+  destruct (compile_left_returns fuel k (Z.of_nat (length target) - k) 8 200000 (Z.of_nat (length target)) V W sub Hev ltac:(lia) LV LW HW NV Hf) as [seq Hseq].
+  assert (E : py_S_compile_target fuel target k (OSub sub :: rest) = FRet seq).
+  { unfold py_S_compile_target. cbv zeta.
+    assert (C1 : negb ((1 <=? k) && (k <? Z.of_nat (length target))) = false) by lia. rewrite C1. cbn [seqo].
+    assert (C2 : ((0 <=? 0) && (0 <=? k))%bool = true) by lia. rewrite C2.
+    assert (C3 : ((0 <=? k) && (0 <=? Z.of_nat (length target) - k))%bool = true) by lia. rewrite C3.
+    assert (C4 : (k <? 2) = false) by lia. rewrite C4.
+    change (Z.to_nat 0) with O. cbn [skipn]. fold V.
+    fold W. assert (EW : firstn (Z.to_nat (Z.of_nat (length target) - k)) W = W) by (apply firstn_all2; unfold W; rewrite skipn_length; lia). rewrite EW.
+    rewrite Hseq. reflexivity. }
+  exists seq. split; [exact E|]. apply (gen_s_c05_left_only fuel target k (OSub sub :: rest) seq E HW).
+Qed.
+
+(* non-vacuity of the totality theorem: YX(x)II with k = 2 meets its hypotheses, and the translated compiler does return on it *)
+Example gen_left_only_total_runs :
+  (Nat.even (Z.to_nat 2) = true /\ (2 <= 2 < Z.of_nat (length [PY;PX;PI;PI]))%Z /\ is_identity (skipn (Z.to_nat 2) [PY;PX;PI;PI]) = true /\
+   firstn (Z.to_nat 2) [PY;PX;PI;PI] <> identity (Z.to_nat 2) /\ (2 * Nat.pow 4 (Z.to_nat 2) < 40)%nat) /\
+  exists seq, py_S_compile_target 40 [PY;PX;PI;PI] 2 [OSub []] = FRet seq /\ compile_ok 4 2 [PY;PX;PI;PI] seq = true.
+Proof.
+  split; [split; [reflexivity|split; [cbn [length]; lia|split; [reflexivity|split; [cbn; discriminate|change (Z.to_nat 2) with 2%nat; cbn [Nat.pow]; lia]]]]|].
+  eexists. split; vm_compute; reflexivity.
+Qed.
+
 Print Assumptions gen_s_ncr.
 Print Assumptions gen_s_orient.
 Print Assumptions checked_evaluates.
@@ -725,5 +1125,8 @@ Print Assumptions gen_s_bfs_members.
 Print Assumptions gen_s_c05_left_only.
 Print Assumptions gen_s_left_map_terminates.
 Print Assumptions gen_s_left_only_terminates.
+Print Assumptions left_map_spec.
+Print Assumptions gen_s_left_only_total.
+Print Assumptions gen_left_only_total_runs.
 Print Assumptions gen_search_runs.
 Print Assumptions gen_bfs_runs.
